@@ -45,3 +45,11 @@ Theorem C05_three_unsew_topology `{Sig} : forall E n ks l c w cnt w1 cnt1,
   exists w2, run E (three_unlink n l) c w cnt = (Done tt, w2, cnt) /\ topo_eq w2 w1.
 Proof. exact three_unsew3_topology. Qed.
 Print Assumptions C05_three_unsew_topology.
+
+(** Tie to the source: [two_sew3] / [two_unsew3] are, verbatim, the programs that tools/tr_sews.py regenerates from
+    dim3/sews/two.rs on every run (Map3/GenSews3.v). *)
+From HC Require Import Map3.GenSews3 Map3.GenSews3Laws.
+Theorem C05_two_sews_are_the_source `{Sig} :
+  (forall n ks l r, gen_two_sew3 n ks l r = two_sew3 n ks l r) /\ (forall n ks l, gen_two_unsew3 n ks l = two_unsew3 n ks l).
+Proof. exact sews3_are_the_source. Qed.
+Print Assumptions C05_two_sews_are_the_source.
